@@ -158,23 +158,31 @@ theorem C08_scaled_times_coverage (ps : List Period) (d0 d1 : Int) (v : Rat) (h 
   · cases h
 
 /-- **off-cycle periods are dropped**: shorter than 25 days, or longer than 35 (monthly) / 70
-(bi-monthly) days — the period contributes no usage and no coverage to any day -/
-theorem C08_offcycle_dropped (c : Cycle) (p : Period) (h : lenDays p < 25 ∨ lenDays p > c.maxDays) (d0 d1 : Int) :
-    ∀ q ∈ cleanBilling c [p], share q d0 d1 = 0 ∧ covered q d0 d1 = 0 := by
+(bi-monthly) calendar days — the period contributes no usage and no coverage to any day -/
+theorem C08_offcycle_dropped (c : Cycle) (p : Period) (days : Int) (h : days < 25 ∨ days > c.maxDays) (d0 d1 : Int) :
+    ∀ q ∈ cleanBilling c [(p, days)], share q d0 d1 = 0 ∧ covered q d0 d1 = 0 := by
   intro q hq
-  have hoff : offCycle c p = true := by unfold offCycle; rcases h with h | h <;> simp [h]
+  have hoff : offCycle c days = true := by unfold offCycle; rcases h with h | h <;> simp [h]
   simp only [cleanBilling, List.map_cons, List.map_nil, hoff, if_true, List.mem_singleton] at hq
   subst hq
   simp [share, covered]
 
-/-- in-cycle periods are kept unchanged (25..35 / 25..70 whole days, inclusive) -/
-theorem C08_incycle_kept (c : Cycle) (p : Period) (h1 : 25 ≤ lenDays p) (h2 : lenDays p ≤ c.maxDays) :
-    cleanBilling c [p] = [p] := by
-  have hoff : offCycle c p = false := by
+/-- in-cycle periods are kept unchanged (25..35 / 25..70 whole calendar days, inclusive) -/
+theorem C08_incycle_kept (c : Cycle) (p : Period) (days : Int) (h1 : 25 ≤ days) (h2 : days ≤ c.maxDays) :
+    cleanBilling c [(p, days)] = [p] := by
+  have hoff : offCycle c days = false := by
     unfold offCycle
     simp only [Bool.or_eq_false_iff, decide_eq_false_iff_not, not_lt]
     exact ⟨h1, h2⟩
   simp [cleanBilling, hoff]
+
+/-- a period of N local calendar days has calendar length N whatever DST changes it contains (its two
+reads are N·1440 wall-clock minutes apart), so 25 local days are never off-cycle and 36 always are -/
+theorem C08_calendar_length (w0 : Int) (n : Int) : lenDays w0 (w0 + n * 1440) = n := by
+  unfold lenDays
+  have : w0 + n * 1440 - w0 = n * 1440 := by ring
+  rw [this]
+  exact Int.mul_ediv_cancel n (by norm_num)
 
 /-- a day no valid period reaches is missing (billing spread) -/
 theorem C08_uncovered_day_missing (ps : List Period) (d0 d1 : Int)
